@@ -193,6 +193,7 @@ def replay(case):
 
 def run(tier):
     run = Run('C13', tier)
+    run.exhaustive = False     # contains sampled parts (seeds / draw streams / a command table), see explanation
     run.decided_keys = run.decided_keys + ('valid',)
     run.explanation = (
         'Engine X with the random module of randomformulas/randomkxor replaced by a nondeterministic stub: ALL outcomes of '
